@@ -144,6 +144,7 @@ CONFIGS = [
     {"edns": True, "option": False, "pad": 128, "tsig": "plain"},
     {"edns": True, "option": False, "pad": 16, "tsig": "plain"},
     {"edns": True, "option": False, "pad": 128, "tsig": "host"},
+    {"edns": True, "option": False, "pad": 16, "tsig": "host"},
 ]
 
 
@@ -209,6 +210,28 @@ def h08b_shards(tier):
     return out
 
 
+# ---------------------------------------------------------------- H08d padding at every residue
+
+def h08d(n: int) -> bool:
+    """Padding requested (block 16), with / without a TSIG whose key name is compressible: for every size of the unpadded message - in particular when it already is a multiple of the block - the final length is a multiple of the block."""
+    cfg = CONFIGS[S("cfg")]
+    m = build_message(cfg, txtlen=n)
+    wire = m.to_wire(max_size=65535)
+    hit("rendered")
+    return check_wire(m, wire, cfg, 65535)
+
+
+def h08d_pre(n):
+    lo, hi = S("nrange")
+    return lo <= n <= hi
+
+
+def h08d_shards(tier):
+    # 16 consecutive lengths cover every residue of the unpadded size modulo the block
+    return [{"cfg": cfg, "nrange": (lo, lo + 3), "_timeout": 600, "_path_timeout": 60}
+            for cfg in (9, 11) for lo in range(0, 64 if tier == "quick" else 256, 4)]
+
+
 # ---------------------------------------------------------------- H08c rollback step on the Renderer itself
 
 def h08c(max_size: int, l0: int, l1: int) -> bool:
@@ -269,6 +292,11 @@ HARNESSES = [
             encodes=["dns.renderer.Renderer._track_size", "dns.renderer.Renderer._rollback", "dns.message.Message.to_wire"],
             bound="TXT string length n symbolic (quick: 8 windows of 4 values across 0..255; thorough: all 0..255), max_size symbolic 512..1400, 2 (6) configurations",
             stubs=["E1", "E7"], outside="several variable-size records"),
+    Harness("H08d", h08d, h08d_pre, h08d_shards, kind="universal over the size of one record (every residue modulo the padding block)",
+            encodes=["dns.renderer.Renderer.add_opt", "dns.renderer.Renderer._write_tsig", "dns.message.Message.to_wire", "dns.message.Message._compute_opt_reserve",
+                     "dns.message.Message._compute_tsig_reserve"],
+            bound="block 16, TSIG key name not compressible / compressible against an owner in the message; TXT length symbolic over 64 (thorough 256) consecutive values, 4 per shard, no size limit",
+            stubs=["E1", "E7"], outside="other block sizes (H08a: 128, 468); truncation together with padding (H08a)"),
     Harness("H08c", h08c, h08c_pre, lambda tier: [{"_timeout": 900, "_path_timeout": 60}], kind="universal",
             encodes=["dns.renderer.Renderer._rollback", "dns.renderer.Renderer._track_size", "dns.name.Name.to_wire"],
             bound="Renderer driven directly: question, a 400-octet rrset that may overflow, then a small rrset of the same owner; max_size symbolic 30..600, two symbolic owner labels (a-z)",
